@@ -1,5 +1,25 @@
 """Property -> machinery."""
 PROPS = {
+    "C11": {
+        "x": ["harness.hC11"],
+        "extra": ["harness.pC11.run"],
+        "level": "other",
+        "explanation": "The history quantifier is attacked by making the state that survives between calls arbitrary and "
+                       "doing one step (Engine X): compile() on a reused compiler whose attributes hold symbolic stale "
+                       "values, convert() with symbolic stale writer state / class-level lists / parameter indent fields, "
+                       "no mutation of the caller's routine lists, and the CLI reader's numbering after arbitrary earlier "
+                       "reads; each must equal the result of a fresh object. ANTLR and igraph run concretely underneath. "
+                       "Concrete two-order histories in one process validate the inventory (model validation).",
+        "technique": "CrossHair+z3 havoc lemmas: real compile()/convert() executed with symbolic stale state, result "
+                     "compared with a fresh baseline",
+        "level_text": "One-step havoc over the inventoried state is solver-decided for 3 inputs per entry point; the "
+                      "stale-memo-table lemma (recycled graph ids) is not encoded and fresh-process hash randomisation is "
+                      "outside the claim.",
+        "level_note": "Trusted: CrossHair, z3; the inventory of surviving state (instance attributes reset in "
+                      "compile()/convert(), class-level lists, param.indent, cli counter). The id()-keyed memo table is "
+                      "only exercised by the concrete histories.",
+        "assumptions": ["inventory of surviving state is complete", "memo table keyed by id(graph) not modelled symbolically"],
+    },
     "C09": {
         "x": ["harness.hC09"],
         "extra": ["harness.pC09.run"],
